@@ -896,11 +896,145 @@ def canonicalise_renames(d):
     return ren
 
 
+def _shift(x, off_l, off_b):
+    """Deep copy of a MIR JSON fragment of the callee with locals and block numbers renumbered."""
+    if isinstance(x, list):
+        return [_shift(v, off_l, off_b) for v in x]
+    if not isinstance(x, dict):
+        return x
+    out = {}
+    is_place = "l" in x and "p" in x and isinstance(x.get("l"), int)
+    is_term = x.get("k") in ("goto", "switch", "drop", "call", "assert") and ("t" in x or "targets" in x or "otherwise" in x)
+    for k, v in x.items():
+        if is_place and k == "l":
+            out[k] = v + off_l
+        elif k == "ix" and isinstance(v, int):
+            out[k] = v + off_l
+        elif is_term and k in ("t", "unwind", "otherwise") and isinstance(v, int):
+            out[k] = v + off_b
+        elif is_term and k == "targets":
+            out[k] = [[a, bb + off_b] for a, bb in v]
+        else:
+            out[k] = _shift(v, off_l, off_b)
+    return out
+
+
+def inline_new_helpers(d, max_blocks=80, rounds=4):
+    """Functions that do not exist in the pinned tree (rules/anchor_sigs.json) and are private, non-trait, non-recursive
+    and small are *helpers extracted by a later edit*. Their bodies are inlined at every direct call site (locals and
+    blocks renumbered, parameters assigned from the arguments, `return` replaced by a jump to the call's continuation),
+    so that every rule sees the shape the code had before the extraction. On the pinned tree nothing is inlined.
+    Returns the list of inlined helper names."""
+    import os
+    import copy
+    p = os.path.join(os.path.dirname(os.path.abspath(__file__)), "anchor_sigs.json")
+    if not os.path.isfile(p):
+        return []
+    with open(p) as fh:
+        sigs = json.load(fh)
+    bodies = {b["def"]: b for b in d.get("bodies", [])}
+
+    def is_helper(name):
+        b = bodies.get(name)
+        if b is None or name in sigs or b.get("kind") not in ("Fn", "AssocFn") or b.get("api"):
+            return False
+        if (b.get("impl") or {}).get("trait") or len(b.get("blocks", [])) > max_blocks:
+            return False
+        if b.get("file") in ("src/in_memory.rs",):
+            return False
+        for blk in b["blocks"]:
+            t = blk.get("term") or {}
+            if t.get("k") in ("call", "tailcall") and (t["callee"].get("path") == name or t["callee"].get("generic") == name):
+                return False
+            if t.get("k") == "tailcall":
+                return False
+        return True
+    helpers = {n for n in bodies if is_helper(n)}
+    if not helpers:
+        return []
+    done = set()
+    first_caller = {}
+    for _ in range(rounds):
+        changed = False
+        for b in d["bodies"]:
+            i = 0
+            while i < len(b["blocks"]):
+                t = b["blocks"][i].get("term")
+                if not t or t.get("k") != "call" or t.get("t") is None or not t["callee"].get("local"):
+                    i += 1
+                    continue
+                cn = t["callee"].get("path") if t["callee"].get("path") in helpers else t["callee"].get("generic")
+                if cn not in helpers or cn == b["def"] or len(b["blocks"]) > 600:
+                    i += 1
+                    continue
+                h = bodies[cn]
+                if len(t["args"]) != h["arg_count"]:
+                    i += 1
+                    continue
+                off_l, off_b = len(b["locals"]), len(b["blocks"])
+                for l in h["locals"]:
+                    nl = copy.deepcopy(l)
+                    nl.pop("name", None) if False else None
+                    b["locals"].append(nl)
+                for blk in h["blocks"]:
+                    nb = _shift(blk, off_l, off_b)
+                    tt = nb.get("term")
+                    if tt and tt.get("k") == "return":
+                        # store the callee's return slot into the destination, then continue after the call
+                        nb["stmts"].append({"k": "assign", "lhs": copy.deepcopy(t["dest"]),
+                                            "rv": {"k": "use", "op": {"k": "move", "place": {"l": off_l, "p": [], "ty": h["locals"][0]["ty"]}}},
+                                            "line": tt.get("line", t.get("line", 0)), "inlined": cn})
+                        nb["term"] = {"k": "goto", "t": t["t"], "line": tt.get("line", 0)}
+                    elif tt and tt.get("k") in ("resume", "terminate"):
+                        pass
+                    b["blocks"].append(nb)
+                # parameters := arguments
+                for k, a in enumerate(t["args"]):
+                    b["blocks"][i]["stmts"].append({"k": "assign", "lhs": {"l": off_l + 1 + k, "p": [], "ty": h["locals"][1 + k]["ty"]},
+                                                    "rv": {"k": "use", "op": copy.deepcopy(a)}, "line": t.get("line", 0), "inlined": cn})
+                b["blocks"][i]["term"] = {"k": "goto", "t": off_b, "line": t.get("line", 0), "inlined_call": cn}
+                done.add(cn)
+                first_caller.setdefault(cn, b["def"] if b.get("kind") != "Closure" else (b.get("root_parent") or b["def"]))
+                changed = True
+                i += 1
+        if not changed:
+            break
+    # drop helper bodies that are no longer referenced (closures of a removed helper keep their parent name)
+    still = set()
+    for b in d["bodies"]:
+        if b["def"] in helpers:
+            continue
+        for blk in b["blocks"]:
+            t = blk.get("term") or {}
+            if t.get("k") in ("call", "tailcall"):
+                for kk in ("path", "generic"):
+                    if t["callee"].get(kk) in helpers:
+                        still.add(t["callee"][kk])
+            for st in blk.get("stmts", []):
+                rv = st.get("rv") or {}
+                for o in [rv.get("op")] + list(rv.get("ops", []) or []):
+                    if isinstance(o, dict) and o.get("k") == "const" and o.get("fn") in helpers:
+                        still.add(o["fn"])
+            for o in (t.get("args") or []):
+                if isinstance(o, dict) and o.get("k") == "const" and o.get("fn") in helpers:
+                    still.add(o["fn"])
+    gone = {n for n in done if n not in still}
+    if gone:
+        d["bodies"] = [b for b in d["bodies"] if b["def"] not in gone]
+        # closures defined inside an inlined helper now belong to nobody by name: re-parent them to the (first) caller
+        for b in d["bodies"]:
+            for kk in ("parent", "root_parent"):
+                if b.get(kk) in gone:
+                    b[kk] = first_caller.get(b[kk], b[kk])
+    return sorted(done)
+
+
 class Crate:
     def __init__(self, path, config):
         with open(path) as fh:
             d = json.load(fh)
         self.renames = canonicalise_renames(d)
+        self.inlined = inline_new_helpers(d)
         self.config = config
         self.path = path
         self.features = d.get("cfg", [])
